@@ -109,6 +109,12 @@ impl SubscriptionMessageFlyweight {
         unsafe { offset_of!(SubscriptionMessageDefn, channel_data) as Index + (*self.m_struct).channel_length as Index }
     }
 
+    /// Number of bytes the message takes for a channel of the given length.
+    #[inline]
+    pub fn encoded_length(channel_length: usize) -> usize {
+        offset_of!(SubscriptionMessageDefn, channel_data) + channel_length
+    }
+
     // Parent Getters
     #[cfg(test)]
     pub fn correlation_id(&self) -> i64 {
